@@ -12,6 +12,7 @@ CONSTANTS
   Challenge = 0
   Precedence = 0
   MaxBlock = 10
+  Gates = {TRUE, FALSE}
   Faults = {"none", "precheck", "waiter", "submit"}
   MaxHist = 14
 INVARIANTS Emit
